@@ -600,7 +600,14 @@ pub fn gen_model(rng: &mut Rng) -> MpsModel {
         }
         cols.push(Col { name, integer, obj, entries, bounds: gen_bounds(rng, integer) });
     }
-    let obj_row = (*rng.pick(&["COST", "OBJ", "obj", "Z", "OBJ"])).to_string();
+    let mut obj_row = (*rng.pick(&["COST", "OBJ", "obj", "Z", "OBJ"])).to_string();
+    // an objective row named like the name a reader may derive for the second constraint of a ranged row
+    if let Some(r) = rows.iter().find(|r| r.range.is_some()) {
+        let derived = format!("{}_", r.name);
+        if rng.chance(1, 8) && rows.iter().all(|o| o.name != derived) {
+            obj_row = derived;
+        }
+    }
     let obj_rhs = if rng.chance(1, 3) { Some(F(rng.half(5, true))) } else { None };
     let sense = *rng.pick(&[SenseSpec::Absent, SenseSpec::Absent, SenseSpec::InlineMin, SenseSpec::InlineMax, SenseSpec::OwnLineMin, SenseSpec::OwnLineMax]);
     let name = (*rng.pick(&["", "TESTPROB", "my problem 1", "p.0"])).to_string();
